@@ -142,7 +142,7 @@ def run_case(scn, ctx):
         # which histories commit, in order (a child before its parent)
         commit_order = []
         for kind, path, n in ops:
-            if kind == "open" and (path.endswith(".mhl") or path.endswith(".mhl.partial")):
+            if kind == "open" and (path.endswith(".mhl") or path.endswith(".mhl.partial") or path.endswith("/ascmhl_manifest.partial")):
                 commit_order.append(posixpath.dirname(posixpath.dirname(path)))
         nested_run = len(commit_order) >= 2
 
